@@ -161,6 +161,9 @@ def python_oracle(c, time_tok, tid, out_units):
             return 'attribute', 'custom attribute %r missing' % k
         if not J.same(obj[k], v):
             return 'attribute', 'custom attribute %r is %r, expected %r' % (k, obj[k], v)
+    for k in obj:
+        if k not in want and k not in custom:
+            return 'foreign-member', 'the record has a member %r = %r that is neither a built-in field nor an attribute of this message' % (k, obj[k])
     return None
 
 
@@ -263,7 +266,8 @@ def run():
                        'numeric attribute values are integers of magnitude <= 2^53 (qlonglong, int, or a double holding an integer)',
                        'category/file/function are ASCII C strings or null pointers',
                        'time string and thread id are read from the message and passed to the model as given fields',
-                       'custom attribute names that equal a built-in name are outside the recoverability claim (still diffed)']
+                       'custom attribute names that equal a built-in name are outside the recoverability claim (still diffed)',
+                       'one JsonFormatter object per mode serves the whole harness run; a record may not depend on earlier messages']
     chk.proof(vlib.proof_leg('Properties_C13', ['json']))
     model = vlib.build_model('json')
     impl = vlib.build_harness('json')
@@ -280,6 +284,17 @@ def run():
     for i in range(n):
         r = chk.rng.random()
         cases.append(gen_case(chk.rng, hist, 'wf' if r < 0.8 else ('shadow' if r < 0.9 else 'malformed')))
+    # pairs on the shared formatter objects: a message with attributes {a, b}, then one with none / with {c}
+    pairs = []
+    for codec in ('utf8', 'latin1'):
+        for flag in (0, 1):
+            a = gen_case(chk.rng, hist, 'wf'); a.update({'codec': codec, 'flag': flag, 'steps': [],
+                'attrs': [(J.units('pair_a'), ('s', J.units('x'))), (J.units('pair_b'), ('i', 2))]})
+            b = gen_case(chk.rng, hist, 'wf'); b.update({'codec': codec, 'flag': flag, 'steps': [], 'attrs': []})
+            c = gen_case(chk.rng, hist, 'wf'); c.update({'codec': codec, 'flag': flag, 'steps': [],
+                'attrs': [(J.units('pair_c'), ('b', True))]})
+            pairs += [a, b, dict(a), c]
+    cases = cases[:ncorpus] + pairs + cases[ncorpus:]
     res, err = run_cases(impl, model, cases)
     if res is None:
         chk.broke('correspondence run failed: ' + err, {'kind': 'infrastructure', 'error': err})
@@ -290,6 +305,14 @@ def run():
         if rr is None:
             return None
         j = judge(t, rr[0])
+        return j[0] if j else None
+
+    def seq_kind(ts):
+        ts = [dict(t, codec=ts[-1].get('codec', 'utf8')) for t in ts]
+        rr, e = run_cases(impl, model, ts)
+        if rr is None:
+            return None
+        j = judge(ts[-1], rr[-1])
         return j[0] if j else None
 
     diffs, bad = [], []
@@ -304,6 +327,27 @@ def run():
         if kind in reported:
             continue
         reported.add(kind)
+        before = None
+        if kind_of(c) != kind:
+            # not reproducible on freshly started formatters: look for one earlier message of the same sub-run
+            # (same process, same JsonFormatter objects)
+            pos = next(n for n, x in enumerate(cases) if x is c)
+            prev = [x for x in cases[:pos] if x.get('codec', 'utf8') == c.get('codec', 'utf8')][-60:]
+            for x in reversed(prev):
+                if seq_kind([x, c]) == kind:
+                    before = x
+                    break
+        if before is not None:
+            small = shrink_case(c, lambda t, kind=kind: seq_kind([before, t]) == kind)
+            before = shrink_case(before, lambda t, kind=kind: seq_kind([t, small]) == kind)
+            rr, _ = run_cases(impl, model, [before, small])
+            k2 = judge(small, rr[1]) if rr else (kind, detail)
+            d = describe(small, rr[1] if rr else None)
+            d['earlier_message_on_the_same_formatter'] = {'input_line': line_of(before), 'case': before,
+                                                          'attributes': [[repr(J.pystr(k)), ' '.join(J.value_tokens(v))] for k, v in before['attrs']]}
+            d.update({'kind': kind, 'detail': (k2 or (kind, detail))[1], 'falsified_cases': sum(1 for b in bad if b[2][0] == kind)})
+            chk.fail('JsonFormatter output falsifies C13 (%s): %s' % (kind, d['detail']), d, kind=kind)
+            continue
         small = shrink_case(c, lambda t, kind=kind: kind_of(t) == kind)
         rr, _ = run_cases(impl, model, [small])
         k2 = judge(small, rr[0]) if rr else (kind, detail)
@@ -351,10 +395,15 @@ def replay(path):
         print(json.dumps(r, indent=1)); return 0
     vlib.gen_src(['json'])
     model = vlib.build_model('json'); impl = vlib.build_harness('json')
-    res, err = run_cases(impl, model, [c])
-    print('input          ', line_of(c), ' (locale codec of the process: %s)' % c.get('codec', 'utf8'))
+    seq = ([dict(r['earlier_message_on_the_same_formatter']['case'], codec=c.get('codec', 'utf8'))]
+           if r.get('earlier_message_on_the_same_formatter') else []) + [c]
+    res, err = run_cases(impl, model, seq)
     if res is None:
         print(err); return 1
+    for t in seq[:-1]:
+        print('earlier message', line_of(t))
+    print('input          ', line_of(c), ' (locale codec of the process: %s)' % c.get('codec', 'utf8'))
+    res = res[-1:]
     for n, rec in enumerate(res[0]['recs']):
         print('record %d implementation ' % (n + 1), repr(J.pystr(J.unhx(rec['impl']))))
         print('record %d model          ' % (n + 1), repr(J.pystr(J.unhx(rec['model']))))
